@@ -44,11 +44,16 @@ def check(ctx):
     quiet = {}
     th = threading.Thread(target=lambda: quiet.update(long_silence(ctx, thorough)), daemon=True)
     th.start()
+    life = {}
+    th2 = threading.Thread(target=lambda: life.update(lifecycle(ctx, thorough)), daemon=True)
+    th2.start()
     try:
         end_to_end(ctx, thorough)
         end_to_end(ctx, thorough, bind="127.0.0.1")
     finally:
         th.join(timeout=120)      # (its collector is stopped by the stage itself)
+        th2.join(timeout=300)
+    judge_lifecycle(ctx, life)
     if "error" in quiet or not quiet:
         raise vlib.Infra("long-silence stage: %s" % quiet.get("error", "did not finish"))
     for case in quiet["cases"]:
@@ -100,6 +105,110 @@ def full_queue_shutdown(ctx, thorough, protos, mirror):
         elif not r["cache_loads"]:
             ctx.violation("%s: the template cache file written at shutdown does not load" % proto, {"proto": proto}, key=proto + ":cache")
         ctx.traces_validated += 1
+
+
+def lifecycle(ctx, thorough):
+    """binding A of Lifecycle.tla: every configuration TLC enumerates (subset of enabled protocols x producer on / off) is one
+    run of the real binary - three decodable datagrams to each of the four ports, the statistics, the sink, SIGTERM, the exit
+    status and the cache files - compared with the observations the model gives for it.  Quick: 10 of the 32 (seeded)."""
+    try:
+        import gen_sflow
+        r = ctx.tlc_model("Lifecycle", "Lifecycle.cfg", want_cases=True, workers=2)
+        ctx.tlc_must_fail("Lifecycle", "LifecycleWaits.cfg", expect="CleanExit", workers=2)
+        cases = sorted(r.cases, key=lambda c: (sorted(c["enabled"]), c["producer"]))
+        if not thorough:
+            keep = [c for c in cases if len(c["enabled"]) in (0, 4)] + ctx.rng.sample([c for c in cases if 0 < len(c["enabled"]) < 4], 6)
+            cases = keep
+        binary = ctx.go_build_bin("vflow")
+        gs = gen_sflow.Gen(ctx.rng)
+        sf = None
+        import sflowlib
+        cands = [gs.datagram(v6=False, sub=0, seq=0, only=1)[0] for _ in range(12)]
+        rr = sflowlib.run(ctx, sflowlib.driver(ctx), [{"msgs": [{"buf": b, "filter": []}]} for b in cands], "lcprobe")
+        sf = next((b for b, x in zip(cands, rr) if not x.get("skipped") and "killed" not in x and x["res"][0]["st"] == "ok" and x["res"][0]["flows"]), None)
+        if sf is None:
+            return {"error": "no decodable sFlow datagram among the candidates"}
+        good = {"ipfix": [c04.tpl_msg("ipfix", 256, 1), c04.data_msg("ipfix", 256), c04.data_msg("ipfix", 256)],
+                "netflow9": [c04.tpl_msg("v9", 256, 1), c04.data_msg("v9", 256), c04.data_msg("v9", 256)],
+                "netflow5": [[0, 5, 0, 1] + [k] * 20 + [7] * 48 for k in (1, 2, 3)],
+                "sflow": [sf[:20] + [0, 0, 0, k] + sf[24:] for k in (1, 2, 3)]}
+        # published per protocol: the template datagram of ipfix / v9 yields no message
+        pubs = {"ipfix": 2, "netflow9": 2, "netflow5": 3, "sflow": 3}
+        out = []
+        for k, c in enumerate(cases):
+            d = ctx.subdir("e2e15life%d" % k)
+            sink = e2e.Sink()
+            sink.start()
+            extra = "".join("%s-enabled: %s\n" % (p, "true" if p in c["enabled"] else "false") for p in ("ipfix", "netflow9", "netflow5", "sflow"))
+            col = e2e.Collector(ctx, binary, d, sink.port, workers=2, extra_cfg=extra, producer=c["producer"])
+            senders = e2e.Senders(1)
+            src = sorted(senders.socks)[0]
+            obs = {"case": c}
+            try:
+                col.start()
+                for proto in ("ipfix", "netflow9", "netflow5", "sflow"):
+                    for m in good[proto]:
+                        try:
+                            senders.send(src, col.ports[proto], m)
+                        except OSError:
+                            pass          # nobody listens: the kernel says so on the second send
+                        time.sleep(0.03)
+                want_udp = sum(c["udp"].values())
+                e2e.wait_until(lambda: sum((col.stats() or {}).get(e2e.KEY[p], {}).get("DecodedCount", 0) for p in e2e.KEY) >= want_udp, timeout=6)
+                time.sleep(0.4)
+                st = col.stats() or {}
+                obs["udp"] = {p: st.get(e2e.KEY[p], {}).get("UDPCount") for p in e2e.KEY}
+                obs["decoded"] = {p: st.get(e2e.KEY[p], {}).get("DecodedCount") for p in e2e.KEY}
+                obs["published"] = len(sink.snapshot())
+                rc, secs = col.stop(signal.SIGTERM, wait=10)
+                obs["rc"], obs["secs"] = rc, secs
+                obs["written"] = sorted(p for p, f in (("ipfix", "ipfix.templates"), ("netflow9", "netflow9.templates")) if os.path.exists(os.path.join(d, f)))
+                err = col.err_tail(4000)
+                obs["panic"] = next((l for l in err.split("\n") if l.startswith(("panic:", "fatal error:"))), None)
+                obs["want_published"] = sum(pubs[p] for p in c["enabled"]) if c["producer"] else 0
+            except vlib.Infra as e:
+                obs["start_error"] = str(e)[:400]
+            finally:
+                col.kill()
+                sink.close()
+                senders.close()
+            out.append(obs)
+        return {"runs": out}
+    except Exception as e:
+        import traceback
+        return {"error": repr(e) + traceback.format_exc()[-600:]}
+
+
+def judge_lifecycle(ctx, res):
+    if "error" in res or "runs" not in res:
+        raise vlib.Infra("lifecycle stage: %s" % res.get("error", "did not finish"))
+    for o in res["runs"]:
+        c = o["case"]
+        what = "enabled protocols %s, producer %s" % (sorted(c["enabled"]) or "none", "on" if c["producer"] else "off")
+        ctx.count(["lifecycle", sorted(c["enabled"]), c["producer"]])
+        if o.get("start_error"):
+            ctx.violation("collector configured with %s did not come up: %s" % (what, o["start_error"]), {"case": c}, key="life:start")
+            continue
+        bad = []
+        if o.get("panic"):
+            bad.append("it died: " + o["panic"])
+        if o.get("rc") != 0:
+            bad.append("exit status %s on SIGTERM (%.1f s)" % (o.get("rc"), o.get("secs") or 0))
+        for p in ("ipfix", "netflow9", "netflow5", "sflow"):
+            if (o["udp"].get(p) or 0) != c["udp"][p]:
+                bad.append("%s UDPCount %s, the model says %d" % (p, o["udp"].get(p), c["udp"][p]))
+            if (o["decoded"].get(p) or 0) != c["udp"][p]:
+                bad.append("%s DecodedCount %s, the model says %d" % (p, o["decoded"].get(p), c["udp"][p]))
+        if o["published"] != o["want_published"]:
+            bad.append("%d messages at the sink, expected %d" % (o["published"], o["want_published"]))
+        if o["written"] != sorted(c["written"]):
+            bad.append("cache files written for %s, the model says %s" % (o["written"], sorted(c["written"])))
+        if bad:
+            ctx.violation("collector configured with %s: %s" % (what, "; ".join(bad)), {"case": c, "observed": {k: o[k] for k in o if k != "case"}},
+                          key="life:" + bad[0].split(" ")[0])
+        else:
+            ctx.traces_validated += 1
+    ctx.extra["lifecycle_runs"] = [{"enabled": sorted(o["case"]["enabled"]), "producer": o["case"]["producer"], "exit": o.get("rc"), "published": o.get("published")} for o in res["runs"]]
 
 
 def long_silence(ctx, thorough):
